@@ -19,7 +19,7 @@ TASK: produce ONE realistic change (a bug a maintainer could plausibly introduce
   (c) the breakage needs something SPECIFIC to manifest — a particular interleaving, a fault/crash at a particular point, a multi-step sequence of operations, an unusual input, or two cooperating sites that each look fine alone. It must NOT be something that ordinary use would expose at once (e.g. not "every call now returns garbage").
 Keep the change small (a few lines, at most ~30) and plausible. Prefer subtle: shared mutable state hoisted to package scope, cursor/offset off-by-one reached only by particular inputs, a missing sort, a check-then-act window, a cache key that forgets a component, an early return that skips cleanup, etc.
 
-Then write a DEMONSTRATION: a standalone Go test file or small Go program (put it under {wt}/.scratch/demo/ with its own instructions, or as a new *_test.go file that is NOT part of the patch) that FAILS with your change applied and PASSES on the original code. Verify both directions yourself (use `git stash` / `git diff > patch; git checkout -- .` etc. inside the worktree).
+Then write a DEMONSTRATION: a standalone Go test file or small Go program (put it under {wt}/.scratch/demo/ with its own instructions, or as a new *_test.go file that is NOT part of the patch) that FAILS with your change applied and PASSES on the original code. Verify both directions yourself (use `git diff > .scratch/my.patch; git checkout -- .; ... ; git apply .scratch/my.patch` inside the worktree; do NOT use `git stash`: the stash is shared between all worktrees of the repository and other participants are working at the same time).
 
 ENVIRONMENT (the sandbox is offline; use exactly this in every shell call, env does not persist between calls):
   export PATH=/root/go/pkg/mod/golang.org/toolchain@v0.0.1-go1.24.2.linux-amd64/bin:$PATH GOTOOLCHAIN=local GOFLAGS=-mod=mod GOPROXY=off
